@@ -13,6 +13,7 @@ import (
 	"fmt"
 	"io"
 	"net"
+	"os"
 	"runtime"
 	"strconv"
 	"sync"
@@ -106,10 +107,11 @@ type FakeConn struct {
 	mu        sync.Mutex
 	cond      *sync.Cond
 	buf       bytes.Buffer
-	dg        bool     // datagram framing
-	dq        [][]byte // queued datagrams
-	eof       bool     // server closed: EOF once buf is drained
-	rerr      error // read side error once buf is drained
+	wdl       time.Time // write deadline (zero: none)
+	dg        bool      // datagram framing
+	dq        [][]byte  // queued datagrams
+	eof       bool      // server closed: EOF once buf is drained
+	rerr      error     // read side error once buf is drained
 	closed    bool
 	closeSeq  int64
 	answered  int
@@ -203,6 +205,9 @@ func (c *FakeConn) Write(p []byte) (int, error) {
 	}
 	c.mu.Lock()
 	defer c.mu.Unlock()
+	if !c.wdl.IsZero() && time.Now().After(c.wdl) {
+		return 0, os.ErrDeadlineExceeded
+	}
 	c.Writes++
 	if c.closed {
 		if f := deadHook.Load(); f != nil {
@@ -316,9 +321,21 @@ func (c *FakeConn) Stats() (writes, maxInflight, closes int) {
 	return c.Writes, c.MaxInFl, c.Closes
 }
 
-func (c *FakeConn) SetDeadline(time.Time) error      { return nil }
-func (c *FakeConn) SetReadDeadline(time.Time) error  { return nil }
-func (c *FakeConn) SetWriteDeadline(time.Time) error { return nil }
+// Like a socket, the fake remembers its write deadline: a Write after it fails with a timeout. (Read
+// deadlines are not simulated: silence is a plan of its own.)
+func (c *FakeConn) SetDeadline(t time.Time) error {
+	c.mu.Lock()
+	c.wdl = t
+	c.mu.Unlock()
+	return nil
+}
+func (c *FakeConn) SetReadDeadline(time.Time) error { return nil }
+func (c *FakeConn) SetWriteDeadline(t time.Time) error {
+	c.mu.Lock()
+	c.wdl = t
+	c.mu.Unlock()
+	return nil
+}
 
 // ---------- transports ----------
 
